@@ -356,9 +356,14 @@ class C15(Check):
                'cssutils/serialize.py')
     trusted_base = (
         'hand-written model lean/CssVerif/Model/Ns.lean of _Namespaces / _cleanNamespaces / deleteRule / the '
-        '@namespace branch of insertRule / CSSNamespaceRule setters / New.append / do_css_Selector, tied to the '
+        '@namespace branch of insertRule / CSSNamespaceRule setters / New.append / do_css_Selector / '
+        'CSSMediaRule.insertRule(text), tied to the '
         'source by the differential correspondence of this run (outcome and full canonical state after every '
         'operation of generated histories)',
+        'hand-written model lean/CssVerif/Model/NsShare.lean of one style rule object in the rule lists of two sheets '
+        '(parent sheet, private mappings, positions), tied by the two-sheet correspondence of this run (outcome, both '
+        'canonical states, parent and index of the object after every operation); lean/CssVerif/Model/NsCalls.lean '
+        '(New.append call by call) tied by the calls stream',
         'selectors enter the model as item lists (qualified names with the four prefix forms + verbatim other '
         'items); tokenising and the selector grammar are outside this kernel',
         'rendering of generated abstract sheets/selectors to CSS text and the canonical projection in '
@@ -366,15 +371,19 @@ class C15(Check):
     )
     assumptions = (
         'DOM calls run with cssutils.log.raiseExceptions = True (the default); parseString runs in logging mode',
-        '@namespace rules with an empty URI, negative indices, comments inside selectors and nested @media are '
-        'not generated (not modelled)',
+        '@namespace rules with an empty URI, negative indices, comments inside selectors other than directly after a '
+        'namespace prefix / in front of the selector, nested @media and more than one shared rule object are not '
+        'generated (not modelled)',
     )
     rule = ('histories: a parsed start sheet (0-4 @namespace rules with/without prefix and comments, style rules, '
             '@media, other rule kinds in and out of order, declared and undeclared prefixes) followed by 1-10 '
             'operations drawn from 10 kinds over small vocabularies of prefixes/URIs/names so that collisions are '
             'frequent; selectors: type, universal, attribute, :not() names with the prefix forms name, *|name, '
             '|name, p|name. non-trivial = distinct (state before, operation) pairs in which the sheet has an '
-            '@namespace rule or the operation mentions a prefix')
+            '@namespace rule or the operation mentions a prefix. two-sheet histories: two parsed sheets, a style rule '
+            'object followed through grab / insertRule into the other sheet / selectorText= / deleteRule on either side '
+            'and the namespace operations on both sheets. calls: selectors with comments directly after namespace '
+            'prefixes and in front')
 
     # ------------------------------------------------------------------------------------------
     def run(self, ctx):
